@@ -69,7 +69,7 @@ func (fx *FnCtx) paramValue(name string, t types.Type, nullable bool) Value {
 // shapeFacts assumes well-formedness of slices/strings/references inside a parameter value.
 func (fx *FnCtx) shapeFacts(v Value, t types.Type, off int) {
 	tc := fx.tc
-	big62 := tc.IntConstI64(1 << 62)
+	big62 := tc.IntConstI64(maxSliceLen)
 	switch u := t.Underlying().(type) {
 	case *types.Slice:
 		id, o, ln, cp := v.L[off], v.L[off+1], v.L[off+2], v.L[off+3]
@@ -404,6 +404,9 @@ func (fx *FnCtx) contractCallWithNames(st *State, pc *Term, fc *FuncContract, na
 	for _, g := range fc.Ghost {
 		ghostNames[g.Name] = true
 	}
+	for n := range fc.LocalSpecs {
+		ghostNames[n] = true // function-local definitions mean nothing to a caller either
+	}
 	for _, c := range fc.Ensures {
 		if len(ghostNames) > 0 && mentionsIdent(c.Expr, ghostNames) {
 			// a postcondition stated through the callee's own ghost variables (witnesses) means
@@ -525,6 +528,9 @@ func mentionsIdent(e SpecExpr, names map[string]bool) bool {
 	case *SUn:
 		return mentionsIdent(x.X, names)
 	case *SCall:
+		if names[x.Fun] {
+			return true
+		}
 		for _, a := range x.Args {
 			if mentionsIdent(a, names) {
 				return true
